@@ -54,7 +54,10 @@ def plan(tier, seed):
 def finalize(agg, tier):
     c = agg["counters"]
     out = []
+    ran = set(agg.get("per_kind", {})) or set(ALL_MODES)          # --only restricts the run to some modes
     for mode in ALL_MODES:
+        if mode not in ran:
+            continue
         for name in DECIDING:
             if not c.get("%s:%s" % (name, mode)):
                 out.append("deciding counter %s:%s is zero" % (name, mode))
